@@ -14,7 +14,7 @@ import (
 
 // cpuTime is the CPU time (user + system) this process has used so far: unlike wall time it
 // does not grow while other processes keep the machine busy.
-func cpuTime() time.Duration {
+func c11CPUTime() time.Duration {
 	var ru syscall.Rusage
 	if syscall.Getrusage(syscall.RUSAGE_SELF, &ru) != nil {
 		return 0
@@ -331,9 +331,9 @@ func c11Growth(h *H) {
 			var last *c11Result
 			for i := 0; i < reps; i++ {
 				h.InFlight(map[string]interface{}{"growth_family": f.name, "n": n, "bytes": len(s)})
-				c0 := cpuTime()
+				c0 := c11CPUTime()
 				r := c11Exec(f.cmd, s, 120*time.Second, true)
-				cpu := cpuTime() - c0
+				cpu := c11CPUTime() - c0
 				last = r
 				if r.Hung != "" {
 					return 0, 0, 0, len(s), r
@@ -354,7 +354,7 @@ func c11Growth(h *H) {
 		t4, c4, a4, b4, r4 := measure(4 * f.base)
 		h.Eval("growth|" + f.name)
 		h.Hist("growth")
-		desc := map[string]interface{}{"family": f.name, "cmd": f.cmd.Kind, "n_small": f.base, "n_large": 4 * f.base, "sample": fmt.Sprintf("%q", trunc([]byte(f.gen(6)), 400))}
+		desc := map[string]interface{}{"family": f.name, "cmd": f.cmd.Kind, "n_small": f.base, "n_large": 4 * f.base, "sample": fmt.Sprintf("%q", c11Trunc([]byte(f.gen(6)), 400))}
 		for _, r := range []*c11Result{r1, r4} {
 			if r.Hung != "" {
 				h.Fail("hang:growth:"+f.name, "the client hangs on a large input: "+r.Hung, desc)
@@ -372,17 +372,17 @@ func c11Growth(h *H) {
 			h.Note("growth %s: not judged, an earlier run was abandoned as hung and is still using the machine", f.name)
 			continue
 		}
-		row := c11GrowthRow{Family: f.name, N: f.base, Bytes1: b1, Bytes4: b4, Ms1: ms(t1), Ms4: ms(t4), Alloc1: a1, Alloc4: a4}
-		row.TimeRatio = float64(t4) / float64(maxDur(t1, time.Millisecond))
-		row.CPUms1, row.CPUms4 = ms(c1), ms(c4)
-		row.CPURatio = float64(c4) / float64(maxDur(c1, 5*time.Millisecond))
-		row.AllocRatio = float64(a4) / float64(maxU64(a1, 1<<20))
+		row := c11GrowthRow{Family: f.name, N: f.base, Bytes1: b1, Bytes4: b4, Ms1: c11Ms(t1), Ms4: c11Ms(t4), Alloc1: a1, Alloc4: a4}
+		row.TimeRatio = float64(t4) / float64(c11MaxDur(t1, time.Millisecond))
+		row.CPUms1, row.CPUms4 = c11Ms(c1), c11Ms(c4)
+		row.CPURatio = float64(c4) / float64(c11MaxDur(c1, 5*time.Millisecond))
+		row.AllocRatio = float64(a4) / float64(c11MaxU64(a1, 1<<20))
 		row.AllocPerByte4 = float64(a4) / float64(b4)
 		rows = append(rows, row)
 		// both the wall time and the CPU time of the process must show it: x4 input, more than x8 time,
 		// and enough absolute time that start-up, GC pauses and a busy machine cannot explain it
 		if row.TimeRatio > 8 && row.CPURatio > 8 && t4 > time.Second && c4 > time.Second {
-			h.Fail("superlinear-time:"+f.name, fmt.Sprintf("parse time grows super-linearly: %d bytes take %.0f ms, %d bytes take %.0f ms (x%.1f for x4 input)", b1, ms(t1), b4, ms(t4), row.TimeRatio), desc)
+			h.Fail("superlinear-time:"+f.name, fmt.Sprintf("parse time grows super-linearly: %d bytes take %.0f ms, %d bytes take %.0f ms (x%.1f for x4 input)", b1, c11Ms(t1), b4, c11Ms(t4), row.TimeRatio), desc)
 		}
 		if row.AllocRatio > 8 && a4 > 64<<20 {
 			h.Fail("superlinear-alloc:"+f.name, fmt.Sprintf("allocation grows super-linearly: %d bytes allocate %d MB, %d bytes allocate %d MB", b1, a1>>20, b4, a4>>20), desc)
@@ -397,14 +397,14 @@ func c11Growth(h *H) {
 	}
 }
 
-func ms(d time.Duration) float64 { return float64(d) / float64(time.Millisecond) }
-func maxDur(a, b time.Duration) time.Duration {
+func c11Ms(d time.Duration) float64 { return float64(d) / float64(time.Millisecond) }
+func c11MaxDur(a, b time.Duration) time.Duration {
 	if a > b {
 		return a
 	}
 	return b
 }
-func maxU64(a, b uint64) uint64 {
+func c11MaxU64(a, b uint64) uint64 {
 	if a > b {
 		return a
 	}
